@@ -11,43 +11,8 @@ verus! {
 use crate::graphql_type_system::r#type::Type;
 use crate::nitrogql_ast::base::Pos;
 
-// ---- oracle: GraphQL specification, "AreTypesCompatible(variableType, locationType)", written as the spec's
-// ---- step list (not as the code's match):
-//  1. If locationType is a non-null type: if variableType is NOT non-null return false; recurse on both unwrapped.
-//  2. Otherwise, if variableType is a non-null type: recurse on (nullableVariableType, locationType).
-//  3. Otherwise, if locationType is a list type: if variableType is NOT a list return false; recurse on the item types.
-//  4. Otherwise, if variableType is a list type, return false.
-//  5. Return true iff variableType and locationType are identical (named) types.
-pub open spec fn are_types_compatible<S: PartialEq>(variable: Type<S, Pos>, location: Type<S, Pos>) -> bool
-    decreases variable, location
-{
-    if let Type::NonNull(loc_inner) = location {
-        if let Type::NonNull(var_inner) = variable {
-            are_types_compatible(var_inner.inner, loc_inner.inner)
-        } else {
-            false
-        }
-    } else if let Type::NonNull(var_inner) = variable {
-        are_types_compatible(var_inner.inner, location)
-    } else if let Type::List(loc_item) = location {
-        if let Type::List(var_item) = variable {
-            are_types_compatible(var_item.inner, loc_item.inner)
-        } else {
-            false
-        }
-    } else if let Type::List(_) = variable {
-        false
-    } else {
-        location->Named_0.name.inner.eq_spec(&variable->Named_0.name.inner)
-    }
-}
-
-//@ contract nitrogql_checker::common ::fn check_type_compatibility
-//@   ret r
-//@   requires [C03.tycompat.pre_eq_lawful] <S as vstd::std_specs::cmp::PartialEqSpec<S>>::obeys_eq_spec()
-//@   ensures [C03.tycompat.sound] r ==> crate::are_types_compatible(*value_type, *expected_type)
-//@   ensures [C04.tycompat.complete] crate::are_types_compatible(*value_type, *expected_type) ==> r
-//@   decreases [C03.tycompat.terminates] *value_type, *expected_type
+//@ fragment spec_tycompat.rs
+//@ fragment contract_tycompat.rs
 //@ end
 
 //@ canary
